@@ -113,7 +113,10 @@ class Tensor:
                 sliced_indices.append([start, stop, axis_, step])
             elif isinstance(s, Tensor):
                 if s.is_scalar:
-                    scalar_indices.append([s, s + 1, axis_, 1])
+                    # The scalar index i is treated as the slice i:i+1 (squeezed below), except
+                    # for i == -1, whose end would be 0 and select nothing: go to the end instead.
+                    i = int(s)
+                    scalar_indices.append([i, i + 1 if i != -1 else shape[axis_], axis_, 1])
                     to_squeeze.append(axis_)
                 else:
                     non_scalar_indices.append((axis_, s))
